@@ -198,6 +198,9 @@ func c10QueryOracle(t reflect.Type, v reflect.Value, names []string) []byte {
 
 func runC10(o *Out) {
 	child := os.Args[1] == "C10child"
+	if !child {
+		c10ColdStarts(o)
+	}
 	c10QueryFirstUse(o)
 	r := o.rng
 	type cfg struct{ g, p int }
